@@ -139,9 +139,10 @@ fn evaluate_do_block_expr(
             source.clone(),
         )?;
 
-        // Name the lambda after the first name it is bound to (a later alias must not rename
-        // it: the name is visible inside the function and takes precedence over captured names)
-        if let Value::Lambda(lambda_ptr) = val {
+        // A lambda written as the value of the assignment is named after it (an existing
+        // function value bound to another name must not be renamed: the name is visible inside
+        // the function and takes precedence over captured names)
+        if let (Value::Lambda(lambda_ptr), Expr::Lambda { .. }) = (val, &value.node) {
             let mut borrowed_heap = heap.borrow_mut();
             if let Some(HeapValue::Lambda(lambda_def)) = borrowed_heap.get_mut(lambda_ptr.index()) {
                 if lambda_def.name.is_none() {
@@ -416,10 +417,10 @@ pub fn evaluate_ast(
                 ));
             }
 
-            // Name the lambda after the first name it is bound to (a later alias must not
-            // rename it: the name is visible inside the function and takes precedence over
-            // captured names)
-            if let Value::Lambda(lambda_ptr) = val {
+            // A lambda written as the value of the assignment is named after it (an existing
+            // function value bound to another name must not be renamed: the name is visible
+            // inside the function and takes precedence over captured names)
+            if let (Value::Lambda(lambda_ptr), Expr::Lambda { .. }) = (val, &value.node) {
                 let mut borrowed_heap = heap.borrow_mut();
                 if let Some(HeapValue::Lambda(lambda_def)) =
                     borrowed_heap.get_mut(lambda_ptr.index())
